@@ -20,6 +20,7 @@ type Universe struct {
 	// assumptions/abstractions actually used, for evidence
 	notes      map[string]bool
 	viaPointer bool
+	byName     map[string]*Sort
 	curKey     string
 	strLits    []string
 	sentinels  []string
@@ -59,6 +60,21 @@ func (u *Universe) define(hint string, t Term) Term {
 	n := u.freshName(hint)
 	u.decls = append(u.decls, fmt.Sprintf("(define-fun %s () %s %s)", n, t.Sort.Name, t.S))
 	return Term{n, t.Sort}
+}
+
+// explodedConst declares a constant of sort srt; struct sorts are built from one
+// constant per scalar leaf (mk_S leaf...), which keeps solvers away from reasoning about
+// datatype-valued unknowns.
+func (u *Universe) explodedConst(name string, srt *Sort) Term {
+	if srt.Kind != KStruct || srt.building {
+		u.decls = append(u.decls, fmt.Sprintf("(declare-const %s %s)", name, srt.Name))
+		return Term{name, srt}
+	}
+	var args []Term
+	for _, f := range srt.Fields {
+		args = append(args, u.explodedConst(name+"."+f.Name, f.Sort))
+	}
+	return app(srt, "mk_"+srt.Name, args...)
 }
 
 // defineConst names a term with a declared constant plus a defining equation; unlike
@@ -243,6 +259,10 @@ func (u *Universe) sliceSort(es *Sort) *Sort {
 
 func (u *Universe) structSort(name string, st *types.Struct, key string) *Sort {
 	s := &Sort{Name: name, Kind: KStruct, building: true}
+	if u.byName == nil {
+		u.byName = map[string]*Sort{}
+	}
+	u.byName[name] = s
 	// register early so that pointers back to this struct resolve to the same sort
 	if key != "" {
 		u.sortCache[key] = s
